@@ -246,6 +246,16 @@ pub fn c12(c: &Case, rep: &mut Report) {
         }
     };
     let want: Vec<(String, Vec<u8>)> = din.unknown_customs().iter().map(|c| (c.name.clone(), c.data.clone())).collect();
+    // interpreted custom sections standing between unknown ones (the order of the unknown ones must survive that)
+    if let Some(first_dbg) = din.customs.iter().position(|c| c.name.starts_with(".debug") || c.name == "name" || c.name == "producers") {
+        let after = din.customs[first_dbg..].iter().filter(|c| !(c.name.starts_with(".debug") || c.name == "name" || c.name == "producers")).count();
+        if after >= 2 {
+            rep.count("inputs-with-2+-unknown-sections-after-an-interpreted-one", 1);
+        }
+        if din.customs[first_dbg].name.starts_with(".debug") && after >= 2 {
+            rep.count("inputs-with-2+-unknown-sections-after-a-.debug-section", 1);
+        }
+    }
     for (label, o) in outputs(end) {
         if !matches!(label, "emit" | "emit2" | "gc" | "gcemit2" | "gc2") {
             continue;
